@@ -395,7 +395,9 @@ fn optimize_stmt(
           loop_value,
         })
         .collect_vec();
-      if let Some((Statement::Break(e), rest)) = stmts.split_last() {
+      if let Some((Statement::Break(e), rest)) = stmts.split_last()
+        && !stmts_contain_break(rest)
+      {
         // Now we know that the loop will only loop once!
         for v in loop_variables {
           value_cx.checked_bind(v.name, v.initial_value);
@@ -493,6 +495,21 @@ fn optimize_stmts(
   false
 }
 
+/// Whether a `break` of the current loop occurs in the statements (a `break` inside a nested
+/// `while` belongs to that loop).
+fn stmts_contain_break(stmts: &[Statement]) -> bool {
+  stmts.iter().any(|s| match s {
+    Statement::Break(_) => true,
+    Statement::IfElse { condition: _, s1, s2, final_assignments: _ } => {
+      stmts_contain_break(s1) || stmts_contain_break(s2)
+    }
+    Statement::SingleIf { condition: _, invert_condition: _, statements } => {
+      stmts_contain_break(statements)
+    }
+    _ => false,
+  })
+}
+
 fn try_optimize_loop_for_some_iterations(
   mut loop_variables: Vec<GenenalLoopVariable>,
   mut stmts: Vec<Statement>,
@@ -515,8 +532,10 @@ fn try_optimize_loop_for_some_iterations(
       binary_expr_cx,
       &mut first_run_optimized_stmts,
     );
-    if let Some(last_stmt) = first_run_optimized_stmts.last() {
-      if !last_stmt.is_break() {
+    if let Some((last_stmt, rest)) = first_run_optimized_stmts.split_last() {
+      // The first iteration can replace the loop only if its final `break` is the only one left:
+      // an earlier conditional `break` would end up outside of any loop.
+      if !last_stmt.is_break() || stmts_contain_break(rest) {
         pop_scope(value_cx, index_access_cx, binary_expr_cx);
         return vec![Statement::While { loop_variables, statements: stmts, break_collector }];
       }
